@@ -294,3 +294,11 @@ func cmdCheck(args []string) int {
 }
 
 func init() { extraCmds["check"] = cmdCheck }
+
+// verifRoot is the directory of the framework (the snapshot it runs from).
+func verifRoot() string {
+	if r := os.Getenv("VERIF_ROOT"); r != "" {
+		return r
+	}
+	return "/verif"
+}
